@@ -10,7 +10,7 @@ R_THOROUGH = ["cases.tl", "goldmaster.tl", "goldmaster2.tl", "goldmaster3.tl", "
 
 def run_gen(prop, tier, regex, regex_q=None, props=None, optsets=("full",), params_q=None, params_t=None, level="model_checking", f_pattern="*",
             r_quick=(), r_thorough=(), wall_q="8s", wall_t="300s", bounds=None, outside=None, assumptions=(), only=None, max_models_q=6, max_models_t=30,
-            max_paths_q=1200, max_paths_t=60000, hgen_extra=(), ladder=None, prim=None, pkg_harness=None):
+            max_paths_q=1200, max_paths_t=60000, hgen_extra=(), ladder=None, prim=None, pkg_harness=None, extra_runs=()):
     c = GenCheck(prop, tier, level)
     if tier == "quick" and regex_q:
         regex = regex_q
@@ -34,6 +34,12 @@ def run_gen(prop, tier, regex, regex_q=None, props=None, optsets=("full",), para
         c.run_pkg(REPO, "./pkg/basictl", os.path.join(REPO, "pkg/basictl"), "basictl", files, prim, params={"strlen": 8, "bits": 17, "maxalloc": 64},
                   max_models=6, label="pkg/basictl")
         c.assumptions.append("generated code reaches strings/sizes/Bool only through pkg/basictl primitives; their obligations (%s) are decided on buffers of symbolic length up to 2^57" % prim)
+    for er in extra_runs:
+        # further harness files on one generated schema (shared with another property's check)
+        c.run_schema(er["key"], [os.path.join(VERIF, "schemas", "f", er["schema"])], er.get("optname", "full"), er["props"], er["regex"], params=er["params_q"] if tier == "quick" else er["params_t"],
+                     libs=[LIB] + [os.path.join(VERIF, "harness", "gen", l) for l in er["libs"]], only=er.get("only"), wall=er.get("wall_q", "120s") if tier == "quick" else er.get("wall_t", "900s"),
+                     max_models=6, max_paths=400000)
+        c.assumptions.append(er["text"])
     if pkg_harness:
         # obligations on a repository package itself (harness injected by overlay)
         ph = pkg_harness
@@ -74,6 +80,10 @@ SPEC["C09"] = dict(regex_q="^VerifC09(f|ft2|j|reset)_", hgen_extra=["-jmode"], p
                    ladder=[{"slack": 0, "slack1": 0}], bounds=dict(BYTES_BOUNDS, **VAL_BOUNDS),
                    outside=OUT_COMMON + ["JSON text that the generated writer does not produce, as the second decode"], r_thorough=R_QUICK,
                    assumptions=["dirty objects: (a) whatever a first decode of arbitrary bytes leaves behind (success or failure), (b) one fully populated value per type (every optional part present), (c) an arbitrary value followed by Reset"])
+JSON_STRINGS = dict(key="f01", schema="f01_scalars.tl", props=["C34"], regex="^VerifC34(String|StringBytes)$", params_q={"jstrlen": 3}, params_t={"jstrlen": 4}, libs=["zz_verif_c34.go"], only=["True"],
+                    wall_q="300s", wall_t="1800s",
+                    text="string leaves beyond the value bound: the JSON string writers of pkg/basictl (string and []byte versions, which generated code calls for every string leaf and dictionary key) on EVERY byte string of <= jstrlen bytes: valid JSON, reads back identically through the generated Json2ReadString/Json2ReadStringBytes, both versions emit the same bytes (harness shared with C34)")
+SPEC["C10"]["extra_runs"] = [dict(JSON_STRINGS, regex="^VerifC34StringBytes$")]
 SPEC["C18"] = dict(params_q={"L": 2, "rlow": 99}, params_t={"L": 3, "rlow": 99}, ladder=[{"rlow": 1}, {"rlow": 0, "L": 1}],
                    bounds={"rand": "ANY output sequence of the Rand source (every draw a fresh symbolic 64-bit value): strictly more than all seeds", "sizes": "SizeHandler = x mod (L+1)",
                            "rlow": "when < 32: every draw is assumed to be <= rlow modulo 32 (keeps RandomString short; its length is not under SizeHandler control)"},
